@@ -333,6 +333,14 @@ partial def hasNonFinite (t : Term) : Bool :=
     | [a] => (parseDecLit a.name.toList).isNone
     | _ => true)) || t.args.any hasNonFinite
 
+/-- a mapping key that is no string (`#!n`: the integer n): the model's configuration values have string keys only -/
+partial def hasNonStringKey (t : Term) : Bool :=
+  (t.name == "m" && (pairKeys t.args).any fun k => k.startsWith "#!" || k.startsWith "#?") || t.args.any hasNonStringKey
+where
+  pairKeys : List Term → List String
+    | k :: _ :: r => k.name :: pairKeys r
+    | _ => []
+
 /-- a constraint case whose value lies outside what the model describes of the libraries (IPv6 host, very long label) -/
 def consOutside (tags : List VTag) (v : DVal) : Bool :=
   match v with
@@ -413,6 +421,7 @@ def handle : Handler := fun input implFull =>
   let consTags : List VTag := (parseTerm (getS kv "tags" "v()")).args.map toTag
   let consVal : DVal := toDVal (parseTerm (getS kv "want" "nil"))
   let unmodelled := touchesUnmodelled sch cfg || hasNonFinite (parseTerm (getS kv "cfg")) ||
+    hasNonStringKey (parseTerm (getS kv "cfg")) ||
     (getS kv "exp" == "meets" && consOutside consTags consVal)
   let obs := parseObs impl
   let modelObs : String :=
